@@ -102,7 +102,7 @@ def floors(tier):
                         "eq_threshold": 200, "nan_value": 200, "all_nan_and": 6, "all_nan_or": 6,
                         "just_above": 200, "just_below": 200, "feat1": 10, "feat2": 50, "feat3": 200,
                         "mode_and": 150, "mode_or": 150, "and_or_differ": 100,
-                        "less_usual_feature_names": 1000, "track_of_hundreds_of_observations": 12,
+                        "less_usual_feature_names": 1000, "values_held_as_numpy_scalars": 150, "track_of_hundreds_of_observations": 12,
                         "more_than_1000_marked_observations": 2},
             "distinct_nontrivial": 4000 if q else 16000}
 
@@ -485,8 +485,17 @@ def _run_seg(case, ctx):
         M.call(lambda: tr["aux", n - 1])
         M.call(segmentation, tr, afs, "m_rejected", thrs, _mode_const(mode))
         ctx.count("rejected_request_before_valid_one")
+    as_numpy = (n + 2 * k + sum(expected)) % 3 == 0
+    if as_numpy:
+        # the values (NaN included) held as numpy scalars, as list(array) or array[i] hand them out
+        import numpy as np
+        cls.append("values_held_as_numpy_scalars")
     for f in range(k):
-        tr.createAnalyticalFeature(names[f], [vals[i][f] for i in range(n)])
+        col = [vals[i][f] for i in range(n)]
+        if as_numpy:
+            col = [np.float64(v) if (i + f) % 2 else np.float32(v) if float(np.float32(v)) == v or v != v else np.float64(v)
+                   for i, v in enumerate(col)]
+        tr.createAnalyticalFeature(names[f], col)
     if (n + k + sum(expected)) % 3 == 1:
         tr, _how = gen.derive(tr, (vals, thr, mode), allow=gen.DERIVE_HOWS + ["hidden_slots", "hidden_slots"])
     if case.get("prior"):
